@@ -364,7 +364,7 @@ impl Property for C06 {
         Meta {
             level: "exploration",
             rule: "each run is a complete Builder history: optional set_version, int/float declarations, module-level / type / context-dependent calls in any order and interleaved with the construction of 0-3 functions x 0-3 parameters x 1-4 blocks x 0-6 body calls drawn uniformly from the whole generated method table (plain and insert_ forms, in-range insertion points, implicit and explicit result ids taken from the builder), a terminator per block, end_function; every call's emitted instruction (found by diffing module_ref() before/after) is compared with the intended grammar-order operand list; then module() -> assemble -> load_words must succeed and the loaded module must equal the built one section by section, function by function, block by block, with the version that was set and a bound above every id used; abstract trace = sequence of (call class, opcode); non-trivial = >= 3 instructions emitted and checked",
-            lanes: "argument biasing (names, function / struct / constant ids, known and NonSemantic import names fed to ext_inst, reserved ids used later as explicit result ids), repeated set_version, rare scale ops (65 535-word type_struct, 65k..262k-byte strings, 65k+ typed ids before a 64-bit type); near-repeat lane (same request again or with exactly one operand changed / toggled) and method-repeat post-pass; annotations aimed at the function being built (LinkageAttributes Import / Export among them); functions without a body; switches on 64-bit selectors; scale lane of 300..70 000 typed ids followed by functions that switch on the late 64-bit constant",
+            lanes: "argument biasing (names, function / struct / constant ids, known and NonSemantic import names fed to ext_inst, reserved ids used later as explicit result ids), repeated set_version, rare scale ops (65 535-word type_struct, 65k..262k-byte strings, 65k+ typed ids before a 64-bit type); near-repeat lane (same request again or with exactly one operand changed / toggled) and method-repeat post-pass; annotations aimed at the function being built (LinkageAttributes Import / Export among them); functions without a body; switches on 64-bit selectors; scale lane of 300..70 000 typed ids followed by functions that switch on the late 64-bit constant; enumerant-pair sweep (pairs of execution modes / decorations on one id, half of them related by name); every 64-bit-typed value as switch selector; type-aware literal specials",
             triple_measure: "n/a",
             item_measure: "Builder methods (of the source-derived table) whose emitted instruction was compared with the intent",
             assumptions: &[
